@@ -29,12 +29,22 @@ def reverse_dfs_recursive(state: int, reversed_transitions: dict, reaching_state
         Output:
             rec_reaching_states: the list of states that reach the input state (or a final state)
     """
+    # iterative (graphs can be thousands of states deep) and every state is
+    # recorded once, however many predecessors lead to it
     rec_reaching_states = reaching_states.copy()
+    visited = set(rec_reaching_states)
+    if state in visited:
+        return rec_reaching_states
+    visited.add(state)
     rec_reaching_states.append(state)
-    for next_state in reversed_transitions[state]:
-        if next_state not in reaching_states:
-            rec_reaching_states = reverse_dfs_recursive(
-                next_state, reversed_transitions, rec_reaching_states)
+    pending = [state]
+    while pending:
+        current_state = pending.pop()
+        for next_state in reversed_transitions[current_state]:
+            if next_state not in visited:
+                visited.add(next_state)
+                rec_reaching_states.append(next_state)
+                pending.append(next_state)
     return rec_reaching_states
 
 
